@@ -40,7 +40,7 @@ theorem Rec_pack_eq (r : Rec) (h : Rec_fits r) : Rec.pack r = (r, .ok (recBytes 
 
 theorem Rec_unpack_hdr (r t : Rec) (h : Rec_fits r) :
     Rec.unpack t (recHdr r) =
-      ({ t with sec := r.sec, usec := r.usec, incl_len := r.incl_len, orig_len := r.orig_len }, .ok ()) := by
+      ({ sec := r.sec, usec := r.usec, incl_len := r.incl_len, orig_len := r.orig_len, payload := [] }, .ok ()) := by
   obtain ⟨h1, h2, h3, h4⟩ := h
   have hf : Fits RECORD_HEADER_FORMAT.codes [r.sec, r.usec, r.incl_len, r.orig_len] := by
     simp [Fits, RECORD_HEADER_FORMAT, Code.bound]; omega
